@@ -185,6 +185,32 @@ def check_modes(rng, X, desc):
         w5[labels == 1] *= 10.0 ** (-float(rng.uniform(17, 250)))
         if np.sum(w5[labels == 1]) > 0:
             calls.append(("from_particles(n_modes=2, one label with a vanishing share of the weight)", lambda: ModeStatistics.from_particles(U, w5, labels, n_modes=2), labels))
+    if has_n_modes and d >= 2 and n >= 16 * d:
+        # the first coordinate takes only d (or fewer) different values (a discrete / quantised parameter); the labels separate the
+        # particles along another coordinate.  Every label is a healthy cluster and its mode must describe ITS particles; moving the
+        # discrete coordinate to another position must not change which statistics a label gets.
+        Uq = U.copy()
+        Uq[:, 0] = 0.25 + 0.5 * (np.arange(n) % 2)          # two values, both present in every label
+        labq = (U[:, 1] > np.median(U[:, 1])).astype(int)
+        calls.append(("from_particles(n_modes=2, first coordinate quantised)", lambda: ModeStatistics.from_particles(Uq, w, labq, n_modes=2), labq))
+        perm = np.roll(np.arange(d), 1)
+        sdq = int(rng.integers(2 ** 31))
+        try:
+            with contextlib.redirect_stdout(io.StringIO()), np.errstate(all="ignore"):
+                np.random.seed(sdq)
+                mq = ModeStatistics.from_particles(Uq, w, labq, n_modes=2)
+                np.random.seed(sdq)
+                mp_ = ModeStatistics.from_particles(Uq[:, perm], w, labq, n_modes=2)
+            for k in range(2):
+                sdk = np.sqrt(np.diag(mq.covariances[k]))
+                dmq = float(np.max(np.abs(mp_.means[k] - mq.means[k][perm]) / sdk[perm]))
+                dCq = float(np.max(np.abs(mp_.covariances[k] - mq.covariances[k][np.ix_(perm, perm)]) / np.outer(sdk[perm], sdk[perm])))
+                if dmq > 1e-6 or dCq > 1e-6:
+                    bad.append(("modes-not-equivariant", f"mode {k}: a cyclic permutation of the coordinates (one of them quantised) changes the mode: location by {dmq:.3g} sd, "
+                                f"scale matrix by {dCq:.3g} (relative) on {desc}"))
+                    break
+        except Exception as e:
+            bad.append(("modes-exception-permuted", f"from_particles raised {type(e).__name__}: {e} on coordinate-permuted particles ({desc})"))
     lo_all, hi_all = U.min(0), U.max(0)
     for nm, f, labs in calls:
         try:
@@ -201,7 +227,8 @@ def check_modes(rng, X, desc):
             continue
         for k in range(ms.K):
             m = ms.means[k]
-            own = U[labs == k] if labs is not None else U
+            Udata = Uq if "quantised" in nm else U
+            own = Udata[labs == k] if labs is not None else Udata
             box = (own.min(0), own.max(0)) if (labs is not None and len(np.unique(own, axis=0)) > d) else (lo_all, hi_all)
             tolb = 1e-9 * (1 + np.abs(box[1] - box[0]))
             if np.any(m < box[0] - tolb) or np.any(m > box[1] + tolb):
